@@ -8,6 +8,7 @@ package main
 //	                                           sb  SortBySortDescriptors            (in place)
 //	                                           tl  SortDescriptorsBuilder.ToSortedList (input must stay intact)
 //	                                           bs  SortDescriptorsBuilder.Sort      (in place)
+//	                                           slp / bsp  = sl / bs over POINTER records (*T)
 //	                                     stack = comma separated descriptors  <k><F><dir>:  k = f (field-name
 //	                                           descriptor) | t (transformer descriptor), F = A|B|C|D, dir = +|-
 //	C <api> <cmp>: rec ; rec ; ...       api = sort | slice | ssort | sidx | isort | iidx
@@ -73,6 +74,20 @@ func c19ParseRec(id int, s string) (c19Rec, bool) {
 		ok = false
 	}
 	return r, ok
+}
+
+// pointer records: FieldSortDescriptor reads the field through reflect.Indirect
+func c19TransformerP(field byte) fpgo.TransformerFunctor[*c19Rec, fpgo.Comparable[interface{}]] {
+	f := c19Transformer(field)
+	return func(r *c19Rec) fpgo.Comparable[interface{}] { return f(*r) }
+}
+
+func c19IdsP(l []*c19Rec) string {
+	v := make([]c19Rec, len(l))
+	for i, r := range l {
+		v[i] = *r
+	}
+	return c19Ids(v)
 }
 
 func c19Transformer(field byte) fpgo.TransformerFunctor[c19Rec, fpgo.Comparable[interface{}]] {
@@ -225,6 +240,36 @@ func c19Run(line string) string {
 				out += " mutated"
 			}
 			return out
+		case "slp", "bsp":
+			ptrs := make([]*c19Rec, len(recs))
+			for k := range recs {
+				ptrs[k] = &recs[k]
+			}
+			if api == "slp" {
+				var sds []fpgo.SortDescriptor[*c19Rec]
+				for _, d := range ds {
+					if d.kind == 'f' {
+						sds = append(sds, fpgo.NewFieldSortDescriptor[*c19Rec](string(d.field), d.asc))
+					} else {
+						sds = append(sds, fpgo.NewSimpleSortDescriptor(c19TransformerP(d.field), d.asc))
+					}
+				}
+				out := c19IdsP(fpgo.SortedListBySortDescriptors(sds, ptrs...))
+				if c19IdsP(ptrs) != snapshot || c19Ids(recs) != snapshot {
+					out += " mutated"
+				}
+				return out
+			}
+			b := fpgo.NewSortDescriptorsBuilder[*c19Rec]()
+			for _, d := range ds {
+				if d.kind == 'f' {
+					b = b.ThenWithFieldName(string(d.field), d.asc)
+				} else {
+					b = b.ThenWithTransformerFunctor(c19TransformerP(d.field), d.asc)
+				}
+			}
+			b.Sort(ptrs)
+			return c19IdsP(ptrs)
 		case "tl", "bs":
 			b := fpgo.NewSortDescriptorsBuilder[c19Rec]()
 			for k, d := range ds {
@@ -348,7 +393,7 @@ func c19RunOrdered(api, ty string, toks []string) string {
 // generator
 
 var c19Fields = []byte{'A', 'B', 'C', 'D'}
-var c19DescApis = []string{"sl", "sb", "tl", "bs"}
+var c19DescApis = []string{"sl", "sb", "tl", "bs", "slp", "bsp"}
 var c19CmpApis = []string{"sort", "slice", "ssort", "sidx", "isort", "iidx"}
 var c19Cmps = []string{"a<", "a>", "am", "b<", "ab", "no"}
 var c19OrdApis = []string{"asc", "desc", "so+", "so-"}
@@ -490,7 +535,7 @@ func c19Gen(tier string, rng *rand.Rand, emit func(string)) map[string]interface
 			}
 			return
 		}
-		api := c19DescApis[apiRot%4]
+		api := c19DescApis[apiRot%len(c19DescApis)]
 		apiRot++
 		emit("D " + api + " " + st + ": " + body)
 		counts["D/"+api]++
@@ -515,7 +560,7 @@ func c19Gen(tier string, rng *rand.Rand, emit func(string)) map[string]interface
 		if len(space) > 3 && !thorough {
 			ml = 4
 		}
-		counts["exh1"] += c19Lists(space, ml, func(body string) { emitD(ds, body, thorough) })
+		counts["exh1"] += c19Lists(space, ml, func(body string) { emitD(ds, body, true) })
 	})
 	// (2) two descriptors: 2 values per key (+ nil for transformer descriptors)
 	c19Stacks(2, func(ds []c19D) {
